@@ -850,18 +850,41 @@ func ruleEscSet(c *Ctx) {
 				continue
 			}
 			found := false
-			allInstrs(fn, func(i ssa.Instruction) {
-				call, ok := i.(*ssa.Call)
-				if !ok {
-					return
+			// what the encoder is given as escapeHTML, seen from fn: one of fn's parameters or a
+			// constant — directly, or through codec functions that pass their own parameter on
+			var flagOf func(g *ssa.Function, depth int) ssa.Value
+			flagOf = func(g *ssa.Function, depth int) ssa.Value {
+				var out ssa.Value
+				if g == nil || len(g.Blocks) == 0 || depth > 3 {
+					return nil
 				}
-				f := call.Call.StaticCallee()
-				if f == nil || f.Name() != "marshal" || recvTypeName(f) != "encodeState" {
-					return
-				}
-				// the encOpts argument: a struct value built with escapeHTML field
-				ov := call.Call.Args[len(call.Call.Args)-1]
-				v := encOptsField(ov, "escapeHTML")
+				allInstrs(g, func(i ssa.Instruction) {
+					call, ok := i.(*ssa.Call)
+					if !ok || out != nil {
+						return
+					}
+					f := call.Call.StaticCallee()
+					if f == nil {
+						return
+					}
+					if f.Name() == "marshal" && recvTypeName(f) == "encodeState" {
+						// the encOpts argument: a struct value built with escapeHTML field
+						out = encOptsField(call.Call.Args[len(call.Call.Args)-1], "escapeHTML")
+						return
+					}
+					if f.Pkg == g.Pkg && f != g {
+						if inner := flagOf(f, depth+1); inner != nil {
+							if p, isP := inner.(*ssa.Parameter); isP && p.Parent() == f {
+								out = call.Call.Args[paramIdx(p)]
+							} else if _, isK := inner.(*ssa.Const); isK {
+								out = inner
+							}
+						}
+					}
+				})
+				return out
+			}
+			if v := flagOf(fn, 0); v != nil {
 				switch name {
 				case "MarshalEscaped":
 					if p, ok := v.(*ssa.Parameter); ok && p.Parent() == fn {
@@ -872,7 +895,7 @@ func ruleEscSet(c *Ctx) {
 						found = true
 					}
 				}
-			})
+			}
 			if !found {
 				bad = name + " does not pass the expected escapeHTML value to the encoder"
 			}
